@@ -40,7 +40,7 @@ class Node:
 
     def loc(self):
         sp = self.term["sp"]
-        return "%s:%d" % (sp["f"], sp["l"])
+        return "%s:%d" % (sp.get("f", "?"), sp.get("l", 0))
 
     def __repr__(self):
         return "<%s bb%d @%s>" % (self.ctx.bv.id.split("::", 1)[-1], self.bi, self.loc())
